@@ -157,7 +157,13 @@ def declRun (s : DState) : List String → List String
         | none => ["bad-op"])
     | _ => ["bad-op"]
 
-def model (f0 : List String) : String :=
+/-- `PM1` / `PM2`: the same parse on a parser object that was move-constructed / move-assigned after
+its declaration — for the model and the specification the same thing as `P` -/
+def normOp (f : List String) : List String :=
+  f.map fun x => if x = "PM1" ∨ x = "PM2" then "P" else x
+
+def model (f00 : List String) : String :=
+  let f0 := normOp f00
   let f := match f0 with
     | t :: rest => if t.startsWith "C" then rest else f0
     | [] => f0
@@ -266,7 +272,8 @@ def histJudge (d : Decl) : List String → List String → Option String
   | [], [] => none
   | _, _ => some "step-count"
 
-def judge (f : List String) (ans : String) : String :=
+def judge (f0 : List String) (ans : String) : String :=
+  let f := normOp f0
   match f with
   | [tag, "P", decl, env, argv] =>
     match parseDecl decl, parseEnv env, unhexList argv with
